@@ -157,9 +157,22 @@ class C06(E1Prop):
                             else r
                         pr = user_pr_by_src(w, src) or pr
                 if pr is not None:
-                    told = any(c['by'] == ROBOT and
-                               msg_title(c['text']) == 'Build failed'
-                               for c in w.comments(pr['id']))
+                    # told about *this* failure: a new "Build failed"
+                    # comment in this job, or the robot's last message is
+                    # already a "Build failed" that names a failing commit
+                    failed = [a[0] for a in answers if a[2] in BAD]
+                    new = any(c['pr'] == pr['id'] and c['by'] == ROBOT and
+                              msg_title(c['text']) == 'Build failed'
+                              for c in rec['new_comments'])
+                    last = [c for c in w.comments(pr['id'])
+                            if c['by'] == ROBOT]
+                    already = bool(last) and msg_title(
+                        last[-1]['text']) == 'Build failed' and any(
+                        sha in last[-1]['text'] for sha in failed)
+                    told = new or already
+                    if told:
+                        w.probe('build-failure-reported:%s' % (
+                            'new-comment' if new else 'already-said'))
                     if not told:
                         raise Violation(
                             'C06', 'C06:build-failed-not-reported',
